@@ -1,6 +1,7 @@
 package main
 
 import (
+	"sort"
 	"go/ast"
 	"go/token"
 	"go/types"
@@ -553,6 +554,7 @@ func checkC04(c *Check) {
 	}
 
 	c04Decides(c)
+	c04TablesReadOnly(c)
 
 	// ---- R7: the block that answers is the block selected for THIS transaction's sender
 	c.Rule("R7", "SMTP endpoint, deferred sender rejection: the session state Rcpt consults before it starts the delivery (the remembered reply of a failed start, the sender, the options) is assigned by every accepted MAIL – a recipient is never refused with the reply of a block selected for an earlier transaction's sender", 1)
@@ -795,5 +797,124 @@ func c04Decides(c *Check) {
 		}
 		path, found := r.ReachBadReturn(r.Entry(), 0, empty, nil, avoidEdge)
 		c.Hold("R9", "Regexp.LookupMulti:match-is-found", r.FI.Decl.Pos(), !found, "with no replacement configured a key that matches the expression gets an empty result, which Lookup reports as 'not found': `destination_in regexp \"…\" { … }` – documented as a match check – never selects its block and the recipient falls through to a rule of lower precedence: "+r.F.Describe(path))
+	}
+}
+
+// R5c, R9b: tables.
+//
+// R5c – what a table lookup returns belongs to the table: table.static, table.file and others hand out their own
+// storage. A caller that completes the values in place (`replacements[i] = replacement + "@" + domain`) rewrites the
+// table for every later lookup: the first recipient's domain sticks to the alias, and the next recipient with another
+// domain is routed into the first one's block. Results of LookupMulti are never stored into.
+//
+// R9b – a key listed in a table is a member whatever its value: `source_in file banned { reject }` uses files with
+// bare keys (empty values). In the table modules' Lookup methods the found / not-found answer never depends on a stored
+// value being the empty string.
+func c04TablesReadOnly(c *Check) {
+	p := c.P
+	c.Rule("R5c", "the slice returned by a table's LookupMulti is never written through by its caller (it may be the table's own storage)", 2)
+	n := 0
+	p.AllFuncs(p.ServerPkgs(), func(fi *FuncInfo) {
+		info := fi.Info()
+		res := map[types.Object]*ast.CallExpr{}
+		ast.Inspect(fi.Decl.Body, func(x ast.Node) bool {
+			as, ok := x.(*ast.AssignStmt)
+			if !ok || len(as.Rhs) != 1 {
+				return true
+			}
+			call, ok := ast.Unparen(as.Rhs[0]).(*ast.CallExpr)
+			if !ok || methodName(call) != "LookupMulti" {
+				return true
+			}
+			if o := objOf(info, as.Lhs[0]); o != nil {
+				if _, isSlice := o.Type().Underlying().(*types.Slice); isSlice {
+					res[o] = call
+				}
+			}
+			return true
+		})
+		if len(res) == 0 {
+			return
+		}
+		var objs []types.Object
+		for o := range res {
+			objs = append(objs, o)
+		}
+		sort.Slice(objs, func(i, j int) bool { return objs[i].Pos() < objs[j].Pos() })
+		for _, o := range objs {
+			n++
+			c.SawFunc(fi.Name())
+			msg := ""
+			ast.Inspect(fi.Decl.Body, func(x ast.Node) bool {
+				switch s := x.(type) {
+				case *ast.AssignStmt:
+					for _, l := range s.Lhs {
+						if ix, ok := ast.Unparen(l).(*ast.IndexExpr); ok && objOf(info, ix.X) == o {
+							msg = "line " + itoa(p.Fset.Position(s.Pos()).Line) + ": an element of the slice returned by LookupMulti is overwritten (" + exprStr(l) + " = …): table.static / table.file return their own storage, so the table itself is rewritten – the value computed for the first recipient (its domain appended) is what every later lookup of that key returns, and a recipient of another domain is routed by the first one's"
+						}
+					}
+				case *ast.CallExpr:
+					if id, ok := s.Fun.(*ast.Ident); ok && id.Name == "append" && len(s.Args) >= 1 {
+						// append(v[:k], …) writes into v's backing array
+						if se, isSlice := ast.Unparen(s.Args[0]).(*ast.SliceExpr); isSlice && objOf(info, se.X) == o {
+							msg = "line " + itoa(p.Fset.Position(s.Pos()).Line) + ": append to a re-slice of the slice returned by LookupMulti writes into the table's own storage"
+						}
+					}
+				}
+				return true
+			})
+			c.Hold("R5c", refName(fi.Obj)+":"+o.Name(), res[o].Pos(), msg == "", msg)
+		}
+	})
+	if n == 0 {
+		c.Fail("R5c", "sites", token.NoPos, "undecided: no LookupMulti result found")
+	}
+	c.Rule("R9b", "table modules: whether Lookup reports a key as found never depends on the stored value being empty (a key listed without a value is a member: `source_in file …`, `destination_in file …`)", 3)
+	tpk := p.Pkg("internal/table")
+	if tpk == nil {
+		c.Fail("R9b", "package", token.NoPos, "anchor unresolved")
+		return
+	}
+	m := 0
+	p.AllFuncs([]*packagesPkg{tpk}, func(fi *FuncInfo) {
+		if refName(fi.Obj) != "Lookup" || fi.Decl.Recv == nil || strings.HasSuffix(p.Fset.Position(fi.Decl.Pos()).Filename, "_test.go") {
+			return
+		}
+		m++
+		c.SawFunc(fi.Name())
+		info := fi.Info()
+		sig := fi.Obj.Type().(*types.Signature)
+		isParam := func(o types.Object) bool {
+			for i := 0; i < sig.Params().Len(); i++ {
+				if sig.Params().At(i) == o {
+					return true
+				}
+			}
+			return false
+		}
+		msg := ""
+		ast.Inspect(fi.Decl.Body, func(x ast.Node) bool {
+			be, ok := x.(*ast.BinaryExpr)
+			if !ok || (be.Op != token.EQL && be.Op != token.NEQ) {
+				return true
+			}
+			for _, pair := range [][2]ast.Expr{{be.X, be.Y}, {be.Y, be.X}} {
+				if sv, isConst := constString(info, pair[1]); isConst && sv == "" {
+					t := info.TypeOf(pair[0])
+					if t == nil || !isStringType(t) {
+						continue
+					}
+					if o := objOf(info, pair[0]); o != nil && isParam(o) {
+						continue // the key itself
+					}
+					msg = "line " + itoa(p.Fset.Position(be.Pos()).Line) + ": the answer depends on a stored value being empty (" + exprStr(be) + "): a key listed without a value – the membership form used with source_in / destination_in – is reported as not found, the table rule never selects its block"
+				}
+			}
+			return true
+		})
+		c.Hold("R9b", recvTypeName(fi.Decl)+".Lookup:membership", fi.Decl.Pos(), msg == "", msg)
+	})
+	if m == 0 {
+		c.Fail("R9b", "tables", token.NoPos, "undecided: no table Lookup found")
 	}
 }
